@@ -1469,5 +1469,16 @@ def sampleTreeTextFirst : Node :=
       .elem [] "b".toList [] [.elem [] "c".toList [] [.text "deep".toList]],
       .elem [] "a".toList [⟨[], "x".toList, "1".toList⟩] [.text "t1".toList] ]
 
+
+/-- outside the domain: two non-blank text runs, `<r k="1">x<a/>y</r>` -/
+def twoRunsTree : Node :=
+  .elem [] "r".toList [⟨[], "k".toList, "1".toList⟩]
+    [.text "x".toList, .elem [] "a".toList [] [], .text "y".toList]
+
+/-- outside the domain: a child element whose key is the text key -/
+def textKeyChildTree : Node :=
+  .elem [] "r".toList [⟨[], "k".toList, "1".toList⟩]
+    [.text "x".toList, .elem [] "#text".toList [] []]
+
 end Dec
 end Mxj
